@@ -9,6 +9,7 @@ import (
 	"context"
 	"fmt"
 	"io"
+	"math"
 	"net"
 	"strconv"
 	"strings"
@@ -34,9 +35,31 @@ type Beh struct {
 	// kind ok with an empty Body: the body is an HTML catalogue page whose items carry these data-price attributes
 	// ("-": the item has no such attribute); see catalogPage
 	Prices []string `json:"prices,omitempty"`
+	// kind announce: the Content-Length the answer announces. To a GET the target sends a 200 with that header, the
+	// first bytes of a JSON body and closes the connection (a lying / corrupted length, a download that is cut); to a
+	// HEAD it is the legal answer for a resource of that size (headers only).
+	Len int64 `json:"announced_length,omitempty"`
 }
 
 var misKinds = []string{"status", "empty", "huge", "bad_status_line", "bad_header", "bad_chunk", "close", "reset", "stall", "short_body", "garbage"}
+
+// genAnnounced: a Content-Length far beyond what is delivered: some GB, sizes no process can allocate (2^48 .. 2^62),
+// and the top of the int64 range.
+func genAnnounced(t *rapid.T) int64 {
+	switch rapid.IntRange(0, 3).Draw(t, "announcedClass") {
+	case 0:
+		return int64(1) << rapid.IntRange(31, 36).Draw(t, "announcedBits")
+	case 1:
+		return math.MaxInt64 - int64(rapid.IntRange(0, 1024).Draw(t, "belowMaxInt64"))
+	default:
+		return int64(1)<<rapid.IntRange(48, 62).Draw(t, "announcedBits") + int64(rapid.IntRange(0, 9).Draw(t, "announcedPlus"))
+	}
+}
+
+func announceBeh(t *rapid.T) Beh { return Beh{Kind: "announce", Len: genAnnounced(t)} }
+
+// unallocatable: no Go process on a 64-bit machine can hold that many bytes (the allocator's limit is 2^48)
+func unallocatable(n int64) bool { return n >= 1<<47 }
 
 func genBeh(t *rapid.T, good bool) Beh {
 	if good {
@@ -47,7 +70,21 @@ func genBeh(t *rapid.T, good bool) Beh {
 		b.Status = rapid.IntRange(200, 599).Draw(t, "status")
 		b.Body = rapid.SampledFrom([]string{"", "x", "{not json", "<html><div", "null"}).Draw(t, "body")
 	}
+	if b.Kind == "short_body" && rapid.Bool().Draw(t, "announcesFarMore") {
+		// the same family: a body shorter than its Content-Length, here by many orders of magnitude
+		b = announceBeh(t)
+	}
 	return b
+}
+
+// respFor is resp for a request of the given method: the kinds that differ for HEAD (announce) are answered in the
+// way that is legal for it.
+func (b Beh) respFor(method string) target.Resp {
+	if b.Kind == "announce" && method == "HEAD" {
+		return target.Resp{Status: 200, Header: map[string]string{"Content-Type": "application/json", "X-Token": goodToken,
+			"Content-Length": strconv.FormatInt(b.Len, 10)}}
+	}
+	return b.resp()
 }
 
 func (b Beh) resp() target.Resp {
@@ -94,6 +131,8 @@ func (b Beh) resp() target.Resp {
 		return target.Resp{Status: 200, DelayMs: 1200, Body: []byte("late")}
 	case "short_body":
 		return raw("HTTP/1.1 200 OK\r\nContent-Length: 50\r\n\r\nshort")
+	case "announce":
+		return raw(fmt.Sprintf("HTTP/1.1 200 OK\r\nContent-Type: application/json\r\nX-Token: %s\r\nContent-Length: %d\r\n\r\n{\"key\": \"va", goodToken, b.Len))
 	}
 	return target.Resp{Status: 200, Body: []byte("ok")}
 }
